@@ -202,7 +202,7 @@ func (ev *EvalCtx) lookupLocal(name string) (SVal, bool, error) {
 			}
 		}
 		s := ev.c.eng.sortOf(et)
-		return SVal{T: "(select " + ev.c.heapTerm(ev.st, ev.c.eng.boxKey(s)) + " " + ref.T + ")", S: s, GT: et}, true, nil
+		return SVal{T: "(select " + ev.c.heapTerm(ev.st, ev.c.eng.boxKey(et)) + " " + ref.T + ")", S: s, GT: et}, true, nil
 	}
 	v, ok := ev.st.cells[a]
 	if !ok {
@@ -354,7 +354,8 @@ func (ev *EvalCtx) eval(e *Expr) (SVal, error) {
 		var binds []string
 		for _, v := range e.Vars {
 			s, gt := c.eng.resolveType(ev.pkg, v.Type)
-			nm := v.Name + "!q"
+			c.nfresh++
+			nm := fmt.Sprintf("%s!q%d", v.Name, c.nfresh)
 			binds = append(binds, "("+nm+" "+s+")")
 			n = n.bind(v.Name, SVal{T: nm, S: s, GT: gt})
 		}
@@ -409,7 +410,12 @@ func (ev *EvalCtx) indexVal(x, i SVal) (SVal, error) {
 			vs := c.eng.sortOf(m.Elem())
 			in := "(select (select " + c.heapTerm(ev.st, dom) + " " + x.T + ") " + i.T + ")"
 			raw := "(select (select " + c.heapTerm(ev.st, val) + " " + x.T + ") " + i.T + ")"
-			return SVal{T: "(ite " + in + " " + raw + " " + c.eng.zero(vs) + ")", S: vs, GT: m.Elem()}, nil
+			// specification-level lookup: the stored value (meaningful only for keys in the domain; use indom
+			// to guard). Boolean maps read false for absent keys, as in Go. No ite, so the term can be a trigger.
+			if vs == "Bool" {
+				return SVal{T: "(and " + in + " " + raw + ")", S: vs, GT: m.Elem()}, nil
+			}
+			return SVal{T: raw, S: vs, GT: m.Elem()}, nil
 		}
 	}
 	return SVal{}, fmt.Errorf("cannot index sort %s", x.S)
@@ -789,7 +795,7 @@ func (ev *EvalCtx) evalCall(e *Expr) (SVal, error) {
 		n := *ev
 		n.vars = map[string]SVal{}
 		for k, v := range ev.vars {
-			if strings.HasSuffix(v.T, "!q") || strings.HasPrefix(k, "$") {
+			if strings.Contains(v.T, "!q") || strings.HasPrefix(k, "$") {
 				n.vars[k] = v
 			}
 		}
@@ -950,7 +956,7 @@ func (ev *EvalCtx) modifiesObjects(cls []*Clause) (map[string][]string, error) {
 						out[k] = append(out[k], v.T)
 					}
 				} else {
-					k := c.eng.boxKey(c.eng.sortOf(u.Elem()))
+					k := c.eng.boxKey(u.Elem())
 					out[k] = append(out[k], v.T)
 				}
 			default:
